@@ -389,13 +389,25 @@ Proof.
     destruct (esc o x) as [|ch e] eqn:Ee; inversion He; subst E.
     + apply sgl_empty0, Hk.
     + apply sgl_text, Hk.
-  - apply (enc_spec_of_sgl (VBool b) key E _ eq_refl). inversion He; subst E. apply sgl_text, Hk.
+  - assert (Hi : imgsG (VBool b) key = [elem_val (xform_key o key) [] (unescape (fmt_v (VBool b))) []]) by reflexivity.
+    apply (enc_spec_of_sgl (VBool b) key E _ Hi). clear Hi.
+    destruct (fmt_v (VBool b)) as [|ch e]; inversion He; subst E; [apply sgl_empty0, Hk | apply sgl_text, Hk].
   - apply (enc_spec_of_sgl VNil key E _ eq_refl). inversion He; subst E. apply sgl_empty0, Hk.
-  - apply (enc_spec_of_sgl (VInt z) key E _ eq_refl). inversion He; subst E. apply sgl_text, Hk.
-  - apply (enc_spec_of_sgl (VI64 z) key E _ eq_refl). inversion He; subst E. apply sgl_text, Hk.
-  - apply (enc_spec_of_sgl (VU64 z) key E _ eq_refl). inversion He; subst E. apply sgl_text, Hk.
-  - apply (enc_spec_of_sgl (VFlt f) key E _ eq_refl). inversion He; subst E. apply sgl_text, Hk.
-  - apply (enc_spec_of_sgl (VJNum x) key E _ eq_refl). inversion He; subst E. apply sgl_text, Hk.
+  - assert (Hi : imgsG (VInt z) key = [elem_val (xform_key o key) [] (unescape (fmt_v (VInt z))) []]) by reflexivity.
+    apply (enc_spec_of_sgl (VInt z) key E _ Hi). clear Hi.
+    destruct (fmt_v (VInt z)) as [|ch e]; inversion He; subst E; [apply sgl_empty0, Hk | apply sgl_text, Hk].
+  - assert (Hi : imgsG (VI64 z) key = [elem_val (xform_key o key) [] (unescape (fmt_v (VI64 z))) []]) by reflexivity.
+    apply (enc_spec_of_sgl (VI64 z) key E _ Hi). clear Hi.
+    destruct (fmt_v (VI64 z)) as [|ch e]; inversion He; subst E; [apply sgl_empty0, Hk | apply sgl_text, Hk].
+  - assert (Hi : imgsG (VU64 z) key = [elem_val (xform_key o key) [] (unescape (fmt_v (VU64 z))) []]) by reflexivity.
+    apply (enc_spec_of_sgl (VU64 z) key E _ Hi). clear Hi.
+    destruct (fmt_v (VU64 z)) as [|ch e]; inversion He; subst E; [apply sgl_empty0, Hk | apply sgl_text, Hk].
+  - assert (Hi : imgsG (VFlt f) key = [elem_val (xform_key o key) [] (unescape (fmt_v (VFlt f))) []]) by reflexivity.
+    apply (enc_spec_of_sgl (VFlt f) key E _ Hi). clear Hi.
+    destruct (fmt_v (VFlt f)) as [|ch e]; inversion He; subst E; [apply sgl_empty0, Hk | apply sgl_text, Hk].
+  - assert (Hi : imgsG (VJNum x) key = [elem_val (xform_key o key) [] (unescape (fmt_v (VJNum x))) []]) by reflexivity.
+    apply (enc_spec_of_sgl (VJNum x) key E _ Hi). clear Hi.
+    destruct (fmt_v (VJNum x)) as [|ch e]; inversion He; subst E; [apply sgl_empty0, Hk | apply sgl_text, Hk].
   - (* VMap *)
     rename m into vv.
     destruct (attrs_of o vv) as [attrs0| |] eqn:Ha; cbn [bind] in He; try discriminate.
